@@ -71,8 +71,8 @@ class Check(PropertyCheck):
             "chunked + pipelining, bare-LF head + read-until-close), then generated exchanges of C01's grammar x schedules: one cut, "
             "k random cuts, all-one-byte; x random client/server interleavings. distinct = distinct (exchange, schedule); "
             "non-trivial = at least one segment boundary.")
-    budget = {"quick": 1500, "thorough": 60000}
-    time_budget = {"quick": 20, "thorough": 480}
+    budget = {"quick": 3000, "thorough": 60000}
+    time_budget = {"quick": 25, "thorough": 480}
     fingerprints = ["mitmproxy.proxy.layers.http._http1:Http1Connection._handle_event", "mitmproxy.proxy.layers.http._http1:Http1Connection.read_body",
                     "mitmproxy.proxy.layers.http._http1:Http1Connection.wait", "mitmproxy.proxy.layers.http._http1:Http1Connection.mark_done",
                     "mitmproxy.proxy.layers.http._http1:Http1Connection.make_pipe",
